@@ -37,8 +37,8 @@ IDS = {1: "a", 2: "a10", 3: "a2", 4: "b:\u00e9"}                      # integer 
 INV_IDS = {v: k for k, v in IDS.items()}
 LABELS = {1: "Kappa1", 2: "lambda Two", 3: "MU-3", 4: "nu4\u00e9"}    # lower-cased order = node order
 TAGS = {1: "tango1", 2: "Tango2", 3: "TANGO3", 4: "tango4"}           # all sort after the labels
-RELS = {1: "supports", 2: "associates", 3: "contradicts", 4: "mystery"}
-DYADIC_MULT = {"supports": 1.0, "associates": 0.5, "contradicts": 0.25}
+RELS = {1: "supports", 2: "associates", 3: "contradicts", 4: "mystery", 5: "blocks"}
+DYADIC_MULT = {"supports": 1.0, "associates": 0.5, "contradicts": 0.25, "blocks": 0.0}
 GRID_D = {"dyadic": 4194304, "five": 512000}
 EPS = 1e-6                                                           # documented cut-off (not imported)
 
@@ -319,6 +319,25 @@ def replay_multi(ws: List[dict]) -> List[Tuple[str, dict, str]]:
                           f"{f}: multi-graph {a[f]} != sum of single-graph calls {[s[f] for s in singles]}"))
     if a["maxd"] != max(s["maxd"] for s in singles) or a["graphs"] != len(ws):
         fails.append(("CountersMatchWork", {"cause": "per-graph max"}, f"max_delta/graphs_touched {a['maxd']}/{a['graphs']} vs singles {[s['maxd'] for s in singles]}"))
+    # the same call through the stage's parallel per-graph driver (perf.parallel.t1): the spreading rule and the
+    # budgets are per graph whichever driver runs the graphs
+    if not fails and len(ws) > 1:
+        try:
+            store, text = build_store(ws, gids)
+            ctxp = build_ctx(ws[0]["cp"], ws[0]["grid"], 1)
+            perf = dict(getattr(ctxp.cfg, "perf", {}) or {})
+            perf.update({"enabled": True, "parallel": {"enabled": True, "t1": True, "max_workers": 2}})
+            perf.setdefault("metrics", {"report_memory": False})
+            ctxp.cfg.perf = perf
+            ap = alpha(call_t1(store, gids, ctxp, text))
+        except Exception as e:  # noqa: BLE001
+            return fails + [("Construct", {"cause": type(e).__name__, "driver": "parallel"}, f"parallel T1 driver raised {type(e).__name__}: {e}")]
+        perf_caps_on = bool(ws[0]["cp"]["fr"] or ws[0]["cp"]["vis"] or ws[0]["cp"]["ded"])
+        if not perf_caps_on:       # switching perf on must not switch perf caps on that the world does not have
+            for f in ("touched", "pops", "iters", "props", "rhits", "lhits", "nhits"):
+                if ap[f] != a[f]:
+                    fails.append(("SpreadRule" if f == "touched" else "CountersMatchWork", {"cause": "parallel per-graph driver", "field": f},
+                                  f"{f}: parallel per-graph driver {ap[f]!r}, sequential driver {a[f]!r}"))
     return fails
 
 
@@ -400,7 +419,7 @@ def families(quick: bool) -> List[Tuple[str, str]]:
             product("dyadic", f"Dress(AllShapes(3, 2), {S(W1, WMH)}, {{1}})", "{{1}, {1, 2}, {2, 3}, {}}", "{{}}", caps()),
             product("dyadic", f"Dress(AllShapes(2, 3), {S(W1, WM1)}, {{1}})", lab12, "{{}}", caps(nb=(12,))),
             # weights and relations, one edge at a time, on the curated shapes
-            product("dyadic", f"DressOne({shapes()}, {allw}, {{1, 2, 3}})", "{{1}, {2, 4}}", "{{}}", caps(fl=(F0, F8), nb=(12,))),
+            product("dyadic", f"DressOne({shapes()}, {allw}, {{1, 2, 3, 5}})", "{{1}, {2, 4}}", "{{}}", caps(fl=(F0, F8), nb=(12,))),
             # caps
             product("dyadic", f"Dress({shapes()}, {S(W1)}, {{1}})", lab12, "{{}}", cap_sweeps()),
             product("dyadic", f"Dress({shapes(['diamond', 'cycle2_tail', 'five'])}, {S(WMH)}, {{1}})", "{{1}}", "{{}}", cap_sweeps((F0, F8))),
@@ -421,7 +440,7 @@ def families(quick: bool) -> List[Tuple[str, str]]:
         fam.append(("topo4", tup(product("dyadic", f"Dress(AllShapes(4, 2), {S(W1, WMH, W3)}, {{1}})", "{{1}, {1, 2}, {2, 4}, {3}}", "{{}, {4}}", caps(nb=(12, 64), fl=(F0, F8))))))
         fam.append(("weights", tup(
             product("dyadic", f"Dress({shapes()}, {S(W1, WMH)}, {{1, 2}})", "{{1}, {1, 2}}", "{{}}", caps(fl=(F0, F8), nb=(12, 64))),
-            product("dyadic", f"DressOne({shapes()}, {allw}, {{1, 2, 3}})", "{{1}, {1, 2}, {2, 4}, {3}, {1, 2, 3, 4}}", "{{}}", caps(fl=(F0, F8), nb=(8, 12, 64), rad=(2, 4))))))
+            product("dyadic", f"DressOne({shapes()}, {allw}, {{1, 2, 3, 5}})", "{{1}, {1, 2}, {2, 4}, {3}, {1, 2, 3, 4}}", "{{}}", caps(fl=(F0, F8), nb=(8, 12, 64), rad=(2, 4))))))
         fam.append(("caps1", tup(product("dyadic", f"Dress({shapes()}, {S(W1, WMH)}, {{1}})", "{{1}, {1, 2}, {2, 3}}", "{{}}", cap_sweeps((F0, F8))))))
         fam.append(("caps2", tup(product("dyadic", f"Dress({shapes(['diamond_back', 'five', 'shortcut', 'par_self'])}, {S(W1)}, {{1}})", "{{1}, {1, 2}}", "{{}}",
                                      caps(rad=RAD, it=(1, 50), ly=(0, 2, 50), si=SIT, q=QB, sp=SPO, rx=RLX, nb=(8, 12, 64))))))
